@@ -467,6 +467,18 @@ Q2 = fp.MPFixedContext(-3)
 H8 = fp.IEEEContext(4, 8)
 S3 = fp.MPSFloatContext(3, -4)
 
+@fp.fpy
+def dbl(a):
+    return a + a
+
+@fp.fpy
+def step(a):
+    return a + 1
+
+@fp.fpy(ctx=fp.MPFloatContext(3))
+def third(a):
+    return a / 3
+
 '''
 
 
@@ -719,6 +731,10 @@ def format_members(ctx, fp, cap=40):
 
 
 DIRECTED = [
+    # one callee reached from several call sites (and from a loop the analysis walks several times) with different argument
+    # formats under the same context: each instantiation has its own result format
+    'with I8:\n        p = fp.round(x)\n    r = dbl(p)\n    s = dbl(y * 1000.5)\n    acc = p\n    for i in range(4):\n        acc = step(acc)\n    t = third(p)\n    u = third(s)\n    return (r, s, acc, t, u)',
+    'with U4:\n        p = fp.round(abs(x))\n    with fp.REAL:\n        a = dbl(p)\n        b = dbl(a * 0.25)\n        c = step(b)\n        k = 0\n        while k < 3:\n            c = dbl(c)\n            with fp.INTEGER:\n                k = k + 1\n    return (a, b, c)',
     # contexts that are only known at run time (computed from the length of a list, chosen by a branch): nothing may be assumed of
     # what is rounded under them beyond what every context guarantees
     'with fp.MPFloatContext(len(xs) + 2):\n        a = x / 3 + y\n        b = a * a\n    with (P3 if x > 0 else H8):\n        c = y / 3\n        d = c + x\n    return (a, b, c, d)',
